@@ -279,6 +279,19 @@ func Check[C any](t *testing.T, name string, gen func(*rapid.T) C, exec func(C) 
 	var lastErr error
 	failed := false
 	os.RemoveAll(filepath.Join("testdata", "rapid"))
+	// rapid reports a failure with Fatalf (Goexit), so the bookkeeping runs deferred
+	defer func() {
+		if failed || t.Failed() {
+			msg := "test failed without oracle error (panic or rapid error)"
+			if lastErr != nil {
+				msg = lastErr.Error()
+			}
+			if !failed {
+				replayPath = ""
+			}
+			rec.Violation(name, replayPath, msg)
+		}
+	}()
 	rapid.Check(t, func(rt *rapid.T) {
 		c := gen(rt)
 		rec.Eval()
@@ -294,16 +307,6 @@ func Check[C any](t *testing.T, name string, gen func(*rapid.T) C, exec func(C) 
 			rt.Fatalf("%s/%s: %v", rec.Property, name, res.Err)
 		}
 	})
-	if failed || t.Failed() {
-		msg := "test failed without oracle error (panic or rapid error)"
-		if lastErr != nil {
-			msg = lastErr.Error()
-		}
-		if !failed {
-			replayPath = ""
-		}
-		rec.Violation(name, replayPath, msg)
-	}
 }
 
 func writeReplay(path, property, test string, c any, err error) {
